@@ -106,7 +106,7 @@ theorem mapM_length' {α β : Type} {f : α → Option β} : ∀ {l : List α} {
           subst h
           simp [mapM_length' hm]
 
-/-! #### locations -/
+/-! #### resolution of access paths -/
 
 theorem resolveIdx_congr {σ τ : Store} (i : QN)
     (h : ∀ k, i = .sym k → τ (.sym k) = σ (.sym k)) : resolveIdx τ i = resolveIdx σ i := by
@@ -116,39 +116,44 @@ theorem resolveIdx_congr {σ τ : Store} (i : QN)
   | attr _ _ => rfl
   | sub _ _ => rfl
 
-theorem loc_congr {σ τ : Store} : ∀ (q : QN), (∀ k ∈ indexSyms q, τ (.sym k) = σ (.sym k)) → loc τ q = loc σ q
-  | .sym _, _ => rfl
-  | .lit _ _, _ => rfl
+theorem read_congr {σ τ : Store} (r : Res) (h : ∀ l ∈ r.slots, τ l = σ l) : r.read τ = r.read σ := by
+  cases r with
+  | slot l => exact h l (by simp [Res.slots])
+  | undefBase v => rfl
+  | fail => rfl
+
+/-- Resolution only looks at the locations listed by `reads`. -/
+theorem resolve_congr {σ τ : Store} : ∀ (q : QN), (∀ l ∈ reads σ q, τ l = σ l) →
+    resolve τ q = resolve σ q ∧ reads τ q = reads σ q
+  | .sym _, _ => ⟨rfl, rfl⟩
+  | .lit _ _, _ => ⟨rfl, rfl⟩
   | .attr b a, h => by
-      simp only [loc, loc_congr b (by simpa [indexSyms] using h)]
+      have ih := resolve_congr b (fun l hl => h l (by simp [reads, hl]))
+      have hr : (resolve σ b).read τ = (resolve σ b).read σ :=
+        read_congr _ (fun l hl => h l (by simp [reads, hl]))
+      simp only [resolve, reads, ih.1, ih.2, hr, and_self]
   | .sub b i, h => by
-      have hb : loc τ b = loc σ b := loc_congr b (fun k hk => h k (by simp [indexSyms, hk]))
+      have ih := resolve_congr b (fun l hl => h l (by simp [reads, hl]))
+      have hr : (resolve σ b).read τ = (resolve σ b).read σ :=
+        read_congr _ (fun l hl => h l (by simp [reads, hl]))
       have hi : resolveIdx τ i = resolveIdx σ i := by
         apply resolveIdx_congr
         intro k hk
         subst hk
-        exact h k (by simp [indexSyms])
-      simp only [loc, hb, hi]
+        exact h _ (by simp [reads])
+      simp only [resolve, reads, ih.1, ih.2, hr, hi, and_self]
 
-theorem loc_sym_eq {σ : Store} {q : QN} {s : String} (h : loc σ q = some (.sym s)) : q = .sym s := by
-  cases q with
-  | sym s' => simpa [loc] using h
-  | lit _ _ => simp [loc] at h
-  | attr b a =>
-    simp only [loc, Option.map_eq_some_iff] at h
-    obtain ⟨_, _, h⟩ := h; cases h
-  | sub b i =>
-    simp only [loc] at h
-    split at h
-    · cases h
-    · cases h
+theorem loc_eq_some {σ : Store} {q l : QN} : loc σ q = some l ↔ resolve σ q = .slot l := by
+  unfold loc
+  cases resolve σ q <;> simp
 
-/-- No entry's location depends on a variable the tuple rewrites. -/
-def Independent (qs : List QN) : Prop := ∀ q ∈ qs, ∀ k ∈ indexSyms q, QN.sym k ∉ qs
+theorem loc_congr {σ τ : Store} (q : QN) (h : ∀ l ∈ reads σ q, τ l = σ l) : loc τ q = loc σ q := by
+  unfold loc; rw [(resolve_congr q h).1]
 
-/-- Under independence the sequential assignment is the assignment of the locations resolved up front. -/
-theorem assignSeq_eq (K : List String) : ∀ (qs ls : List QN) (vs : List Val) (τ : Store),
-    qs.mapM (loc τ) = some ls → (∀ q ∈ qs, ∀ k ∈ indexSyms q, k ∈ K) → (∀ l ∈ ls, ∀ k ∈ K, l ≠ .sym k) →
+/-- Under independence (no resolution reads a written location) the sequential assignment is the assignment of the
+locations resolved up front. -/
+theorem assignSeq_eq (W : List QN) : ∀ (qs ls : List QN) (vs : List Val) (τ : Store),
+    qs.mapM (loc τ) = some ls → (∀ q ∈ qs, ∀ l ∈ reads τ q, l ∉ W) → (∀ l ∈ ls, l ∈ W) →
     assignSeq qs vs τ = some (assignAll ls vs τ)
   | [], ls, vs, τ, h, _, _ => by
       simp only [List.mapM_nil, Option.pure_def, Option.some.injEq] at h
@@ -156,7 +161,7 @@ theorem assignSeq_eq (K : List String) : ∀ (qs ls : List QN) (vs : List Val) (
       cases vs <;> rfl
   | q :: qs, ls, [], τ, h, _, _ => by
       cases ls <;> rfl
-  | q :: qs, ls, v :: vs, τ, h, hK, hl => by
+  | q :: qs, ls, v :: vs, τ, h, hR, hW => by
       simp only [List.mapM_cons, Option.bind_eq_bind, Option.pure_def] at h
       cases hq : loc τ q with
       | none => rw [hq] at h; cases h
@@ -167,17 +172,21 @@ theorem assignSeq_eq (K : List String) : ∀ (qs ls : List QN) (vs : List Val) (
         | some ls' =>
           rw [hm, Option.bind_some, Option.some.injEq] at h
           subst h
-          have hl0 := hl l (List.mem_cons_self ..)
+          have hlW : l ∈ W := hW l (List.mem_cons_self ..)
+          have hagree : ∀ q' ∈ qs, ∀ x ∈ reads τ q', update τ l v x = τ x := by
+            intro q' hq' x hx
+            exact update_other _ _ (fun hxl => hR q' (List.mem_cons_of_mem _ hq') x hx (hxl ▸ hlW))
           have hm' : qs.mapM (loc (update τ l v)) = some ls' := by
             rw [← hm]
             apply mapM_congr_opt
             intro q' hq'
-            apply loc_congr
-            intro k hk
-            exact update_other _ _ (fun hkk => hl0 k (hK q' (List.mem_cons_of_mem _ hq') k hk) hkk.symm)
-          simp only [assignSeq, hq, assignAll]
-          exact assignSeq_eq K qs ls' vs (update τ l v) hm'
-            (fun q' hq' => hK q' (List.mem_cons_of_mem _ hq')) (fun l' hl' => hl l' (List.mem_cons_of_mem _ hl'))
+            exact loc_congr q' (hagree q' hq')
+          have hR' : ∀ q' ∈ qs, ∀ x ∈ reads (update τ l v) q', x ∉ W := by
+            intro q' hq' x hx
+            rw [(resolve_congr q' (hagree q' hq')).2] at hx
+            exact hR q' (List.mem_cons_of_mem _ hq') x hx
+          simp only [assignSeq, loc_eq_some.mp hq, assignAll]
+          exact assignSeq_eq W qs ls' vs (update τ l v) hm' hR' (fun l' hl' => hW l' (List.mem_cons_of_mem _ hl'))
 
 theorem mapM_mem {α β : Type} {f : α → Option β} : ∀ {l : List α} {r : List β}, l.mapM f = some r →
     ∀ y ∈ r, ∃ x ∈ l, f x = some y
@@ -230,27 +239,17 @@ theorem getS_of_locs : ∀ (es : List Entry) (ls : List QN) (vs : List Val) (τ 
               subst h2
               have ih := getS_of_locs es ls' vs' τ hm hm2
               simp only [getS] at ih
-              simp only [getS, List.mapM_cons, readEntry, hq, Option.bind_some, hl, ih, Option.bind_eq_bind,
-                Option.pure_def]
+              simp only [getS, List.mapM_cons, readEntry, loc_eq_some.mp hq, Res.read, hl, ih, Option.bind_eq_bind,
+                Option.bind_some, Option.pure_def]
 
-/-- A write followed by a read returns what was written — PROVIDED no entry's location depends on a variable the
-tuple itself rewrites (`Independent`) and the entries denote pairwise distinct locations at call time. -/
+/-- A write followed by a read returns what was written — PROVIDED every entry can be located, no resolution reads a
+location the tuple writes, and the entries denote pairwise distinct locations at call time. -/
 theorem getS_setS (es : List Entry) (vs : List Val) (σ : Store) (ls : List QN)
-    (hind : Independent (es.map (·.qn))) (hloc : (es.map (·.qn)).mapM (loc σ) = some ls)
+    (hloc : (es.map (·.qn)).mapM (loc σ) = some ls)
+    (hind : ∀ q ∈ es.map (·.qn), ∀ l ∈ reads σ q, l ∉ ls)
     (hnd : ls.Nodup) (hlen : es.length = vs.length) :
     ∃ σ', assignSeq (es.map (·.qn)) vs σ = some σ' ∧ getS es σ' = some vs := by
-  let K := (es.map (·.qn)).flatMap indexSyms
-  have hK : ∀ q ∈ es.map (·.qn), ∀ k ∈ indexSyms q, k ∈ K := fun q hq k hk =>
-    List.mem_flatMap.mpr ⟨q, hq, hk⟩
-  have hl : ∀ l ∈ ls, ∀ k ∈ K, l ≠ .sym k := by
-    intro l hlm k hk heq
-    subst heq
-    obtain ⟨q, hq, hlq⟩ := mapM_mem hloc _ hlm
-    have := loc_sym_eq hlq
-    subst this
-    obtain ⟨q', hq', hk'⟩ := List.mem_flatMap.mp hk
-    exact hind q' hq' k hk' hq
-  refine ⟨assignAll ls vs σ, assignSeq_eq K _ ls vs σ hloc hK hl, ?_⟩
+  refine ⟨assignAll ls vs σ, assignSeq_eq ls _ ls vs σ hloc hind (fun _ h => h), ?_⟩
   have hlen' : ls.length = vs.length := by
     have := mapM_length' hloc
     simp only [List.length_map] at this
@@ -260,46 +259,51 @@ theorem getS_setS (es : List Entry) (vs : List Val) (σ : Store) (ls : List QN)
   apply mapM_congr_opt
   intro q hq
   apply loc_congr
-  intro k hk
-  apply assignAll_notin
-  intro hmem
-  exact hl _ hmem k (hK q hq k hk) rfl
+  intro l hl
+  exact assignAll_notin _ _ _ _ (hind q hq l hl)
 
-/-- Writing back what was just read changes nothing — PROVIDED every guarded entry exists in the store. -/
+theorem any_cons_false {α : Type} {p : α → Bool} {a : α} {l : List α} (h : (a :: l).any p = false) :
+    p a = false ∧ l.any p = false := by
+  simpa [List.any_cons, Bool.or_eq_false_iff] using h
+
+/-- Writing back what was just read changes nothing — PROVIDED no entry has an `Undefined` base and no guarded entry is
+missing (nor any entry unlocatable). -/
 theorem setS_getS : ∀ (es : List Entry) (vs : List Val) (σ : Store),
-    (∀ e ∈ es, e.guarded = true → (loc σ e.qn).bind σ ≠ none) → getS es σ = some vs →
+    undefBaseAt σ es = false → missingAt σ es = false → getS es σ = some vs →
     assignSeq (es.map (·.qn)) vs σ = some σ
-  | [], vs, σ, _, h => by
+  | [], vs, σ, _, _, h => by
       simp only [getS, List.mapM_nil, Option.pure_def, Option.some.injEq] at h
       subst h; rfl
-  | e :: es, vs, σ, hex, h => by
+  | e :: es, vs, σ, hu, hm, h => by
+      obtain ⟨hu1, hu2⟩ := any_cons_false hu
+      obtain ⟨hm1, hm2⟩ := any_cons_false hm
       simp only [getS, List.mapM_cons, Option.bind_eq_bind, Option.pure_def] at h
-      have he := hex e (List.mem_cons_self ..)
-      cases hs : (loc σ e.qn).bind σ with
-      | none =>
-        cases hg : e.guarded with
-        | true => exact absurd hs (he hg)
-        | false => simp [readEntry, hs, hg] at h
-      | some v =>
-        have hr : readEntry σ e = some v := by simp [readEntry, hs]
-        rw [hr, Option.bind_some] at h
-        cases hm : es.mapM (readEntry σ) with
-        | none => rw [hm] at h; cases h
-        | some vs' =>
-          rw [hm] at h
-          simp only [Option.bind_some, Option.some.injEq] at h
-          subst h
-          cases hq : loc σ e.qn with
-          | none => rw [hq] at hs; cases hs
-          | some l =>
-            rw [hq, Option.bind_some] at hs
-            have hu : update σ l v = σ := by
+      cases hr : resolve σ e.qn with
+      | undefBase v => simp [hr] at hu1
+      | fail => simp [hr] at hm1
+      | slot l =>
+        simp only [hr] at hm1
+        cases hs : σ l with
+        | none =>
+          cases hg : e.guarded with
+          | true => simp [hg, hs] at hm1
+          | false => simp [readEntry, hr, Res.read, hs, hg] at h
+        | some v =>
+          have hre : readEntry σ e = some v := by simp [readEntry, hr, Res.read, hs]
+          rw [hre, Option.bind_some] at h
+          cases hmm : es.mapM (readEntry σ) with
+          | none => rw [hmm] at h; cases h
+          | some vs' =>
+            rw [hmm] at h
+            simp only [Option.bind_some, Option.some.injEq] at h
+            subst h
+            have hupd : update σ l v = σ := by
               funext q
               by_cases hql : q = l
               · subst hql; rw [update_same, hs]
               · rw [update_other _ _ hql]
-            simp only [List.map_cons, assignSeq, hq, hu]
-            exact setS_getS es vs' σ (fun e' he' => hex e' (List.mem_cons_of_mem _ he')) hm
+            simp only [List.map_cons, assignSeq, hr, hupd]
+            exact setS_getS es vs' σ hu2 hm2 hmm
 
 /-- From position-wise agreement: the getter's entries and the setter's targets are the same variables. -/
 theorem entries_of_all3 : ∀ {ns gs ts : List Expr}, All3 PosOk ns gs ts →
@@ -313,5 +317,96 @@ theorem entries_of_all3 : ∀ {ns gs ts : List Expr}, All3 PosOk ns gs ts →
         simp only [entriesOf] at h1
         rw [h1]; rfl
       · simp only [List.mapM_cons, ht, Option.bind_eq_bind, Option.bind_some, h2, Option.pure_def, List.map_cons, hq]
+
+
+/-! #### classes -/
+
+theorem lawful_facts {σ : Store} {es : List Entry} (h : classify σ es = .lawful) :
+    undefBaseAt σ es = false ∧ missingAt σ es = false ∧ dependentAt σ es = false ∧ aliasedAt σ es = false := by
+  unfold classify at h
+  cases h1 : undefBaseAt σ es <;> cases h2 : missingAt σ es <;> cases h3 : dependentAt σ es <;>
+    cases h4 : aliasedAt σ es <;> simp_all
+
+theorem lawful_of_facts {σ : Store} {es : List Entry} (h1 : undefBaseAt σ es = false) (h2 : missingAt σ es = false)
+    (h3 : dependentAt σ es = false) (h4 : aliasedAt σ es = false) : classify σ es = .lawful := by
+  simp [classify, h1, h2, h3, h4]
+
+/-- Without `Undefined` bases and unlocatable entries every entry denotes a location. -/
+theorem locs_of_located : ∀ (es : List Entry) (σ : Store), undefBaseAt σ es = false → missingAt σ es = false →
+    (es.map (·.qn)).mapM (loc σ) = some (slotsOf σ es)
+  | [], _, _, _ => rfl
+  | e :: es, σ, hu, hm => by
+      obtain ⟨hu1, hu2⟩ := any_cons_false hu
+      obtain ⟨hm1, hm2⟩ := any_cons_false hm
+      have ih := locs_of_located es σ hu2 hm2
+      cases hr : resolve σ e.qn with
+      | undefBase v => simp [hr] at hu1
+      | fail => simp [hr] at hm1
+      | slot l =>
+        have hl : loc σ e.qn = some l := loc_eq_some.mpr hr
+        simp only [List.map_cons, List.mapM_cons, hl, ih, Option.bind_eq_bind, Option.bind_some, Option.pure_def]
+        simp [slotsOf, hr, Res.slots]
+
+theorem independent_of_class {σ : Store} {es : List Entry} (h : dependentAt σ es = false) :
+    ∀ q ∈ es.map (·.qn), ∀ l ∈ reads σ q, l ∉ slotsOf σ es := by
+  intro q hq l hl hmem
+  obtain ⟨e, he, rfl⟩ := List.mem_map.mp hq
+  have h1 := List.any_eq_false.mp h e he
+  have h2 : ∀ x ∈ reads σ e.qn, ¬ x ∈ slotsOf σ es := by simpa using h1
+  exact h2 l hl hmem
+
+theorem nodup_of_class {σ : Store} {es : List Entry} (h : aliasedAt σ es = false) : (slotsOf σ es).Nodup := by
+  apply nodupB_sound
+  simpa [aliasedAt] using h
+
+/-- Under `SetterDeclares` every simple target of the setter is the caller-visible cell. -/
+theorem map_id_of_mapM {α β : Type} {f : α → Option β} {g : β → β} : ∀ {ts : List α} {qs : List β},
+    ts.mapM f = some qs → (∀ t ∈ ts, ∀ q, f t = some q → g q = q) → qs.map g = qs
+  | [], qs, h, _ => by
+      simp only [List.mapM_nil, Option.pure_def, Option.some.injEq] at h; subst h; rfl
+  | t :: ts, qs, h, hg => by
+      simp only [List.mapM_cons, Option.bind_eq_bind, Option.pure_def] at h
+      cases hf : f t with
+      | none => rw [hf] at h; cases h
+      | some q =>
+        rw [hf, Option.bind_some] at h
+        cases hm : ts.mapM f with
+        | none => rw [hm] at h; cases h
+        | some qs' =>
+          rw [hm, Option.bind_some, Option.some.injEq] at h
+          subst h
+          simp only [List.map_cons, hg t (List.mem_cons_self ..) q hf,
+            map_id_of_mapM hm (fun t' ht' => hg t' (List.mem_cons_of_mem _ ht'))]
+
+theorem setterTarget_id {c : OpCall} {ts : List Expr} {qs : List QN} (hd : SetterDeclares c)
+    (hts : setterTargets c = some ts) (hq : ts.mapM exprQN = some qs) :
+    qs.map (setterTarget (declaredNames c.setter.body)) = qs := by
+  obtain ⟨ts', hts', hdecl⟩ := hd
+  rw [hts] at hts'
+  cases hts'
+  apply map_id_of_mapM hq
+  intro t ht q hqt
+  cases q with
+  | sym s =>
+    cases t with
+    | name i s' ctx =>
+      simp only [exprQN, Option.some.injEq, QN.sym.injEq] at hqt
+      subst hqt
+      unfold setterTarget
+      cases hc : BlockVars.isComposite s'
+      · have := hdecl _ ht i s' ctx rfl hc
+        simp [this]
+      · simp [hc]
+    | const => simp [exprQN] at hqt
+    | attr i v a ctx =>
+      simp only [exprQN, Option.map_eq_some_iff] at hqt
+      obtain ⟨_, _, h⟩ := hqt; cases h
+    | subscript i v sl ctx =>
+      simp only [exprQN, Option.bind_eq_bind, Option.pure_def] at hqt
+      cases h1 : exprQN v <;> cases h2 : exprQN sl <;> simp_all
+    | _ => simp [exprQN] at hqt
+  | lit _ _ => rfl
+  | attr _ _ => rfl
+  | sub _ _ => rfl
 
 end Malt.Conv.Contract
